@@ -47,6 +47,7 @@ inductive Out where
   | evOpen (ch : Nat) | evClose (ch : Nat) | evLow (ch : Nat)
   | evMessage (ch : Nat) (isStr : Bool) (data : Bytes)
   | evChannel (ch : Nat)
+  | rexc (ch : Nat) (kind : String)         -- exception raised by `send()` inside an application event handler
   | exc (kind : String)                     -- exception returned to the application caller
   | crash (kind : String)                   -- exception escaping a handler
   deriving Repr, Inhabited
@@ -91,6 +92,10 @@ structure Ep where
   cookies : List Bytes := []
   now : Int := 1024000
   listeners : Bool := true                 -- transport-level listeners (removed on CLOSED)
+  /-- one-shot application event handlers that call `channel.send(data)` from INSIDE the event (re-entrant API use):
+  `(kind, channel index, isStr, data)`, kind 0 `open`, 1 `close`, 2 `bufferedamountlow`, 3 `message` of that channel,
+  4 the transport's `datachannel` event (any channel; the send goes to the announced channel) -/
+  reactions : List (Nat × Nat × Bool × Bytes) := []
   deriving Repr, Inhabited
 
 def Ep.init (isServer : Bool) (tag tsn : Nat) : Ep :=
@@ -124,21 +129,65 @@ def chanGet (i : Nat) : M Chan := do
 
 def chanSet (i : Nat) (c : Chan) : M Unit := modE fun e => { e with chans := e.chans.set i c }
 
+def queueTask (t : Task) (name : String) : M Unit := do
+  modE fun e => { e with tasks := e.tasks ++ [t] }
+  emit (.task name)
+
+/-- `channel._addBufferedAmount(amount)` without application handlers; returns whether `bufferedamountlow` fired. -/
+def addBufferedCore (i : Nat) (amount : Int) : M Bool := do
+  let c ← chanGet i
+  let crosses := decide (c.buffered > c.threshold) && decide (c.buffered + amount ≤ c.threshold)
+  chanSet i { c with buffered := c.buffered + amount }
+  if crosses && !c.silent && c.ready ≠ 3 then
+    emit (.evLow i)
+    pure true
+  else pure false
+
+/-- `_addBufferedAmount` as called by `send()`: the amount is positive, a downward crossing cannot happen (were the
+event emitted all the same, it would be seen in the outputs; an application handler is not modelled there). -/
+def addBuffered0 (i : Nat) (amount : Int) : M Unit := do
+  let _ ← addBufferedCore i amount
+
+/-- The PPID and the bytes `_data_channel_send` queues for `data`. -/
+def userData (isStr : Bool) (data : Bytes) : Nat × Bytes :=
+  if data.isEmpty then (if isStr then WEBRTC_STRING_EMPTY else WEBRTC_BINARY_EMPTY, [0])
+  else (if isStr then WEBRTC_STRING else WEBRTC_BINARY, data)
+
+/-- `channel.send(data)` after its state check: `_data_channel_send`. -/
+def dcSend (i : Nat) (isStr : Bool) (data : Bytes) : M Unit := do
+  let (ppid, ud) := userData isStr data
+  addBuffered0 i ud.length
+  modE fun e => { e with dcQueue := e.dcQueue ++ [(i, ppid, ud)] }
+  queueTask .flush "data_channel_flush"
+
+/-- An application event handler of kind `k` for channel `i` runs (right after the event was emitted): the first
+armed reaction is consumed and calls `channel.send(data)`; `InvalidStateError` stays inside the handler. -/
+def react (k i : Nat) : M Unit := do
+  let e ← getE
+  match e.reactions.find? (fun r => r.1 == k && (k == 4 || r.2.1 == i)) with
+  | none => pure ()
+  | some r =>
+    setE { e with reactions := e.reactions.erase r }
+    let c ← chanGet i
+    if c.ready ≠ 1 then emit (.rexc i "InvalidStateError")
+    else dcSend i r.2.2.1 r.2.2.2
+
 /-- `channel._setReadyState(state)`. -/
 def setReady (i : Nat) (st : Nat) : M Unit := do
   let c ← chanGet i
   if c.ready ≠ st then
     chanSet i { c with ready := st }
     if !c.silent then
-      if st = 1 then emit (.evOpen i)
-      else if st = 3 then emit (.evClose i)
+      if st = 1 then
+        emit (.evOpen i)
+        react 0 i
+      else if st = 3 then
+        emit (.evClose i)
+        react 1 i
 
-/-- `channel._addBufferedAmount(amount)`. -/
+/-- `channel._addBufferedAmount(amount)` (with the application's `bufferedamountlow` handler). -/
 def addBuffered (i : Nat) (amount : Int) : M Unit := do
-  let c ← chanGet i
-  let crosses := decide (c.buffered > c.threshold) && decide (c.buffered + amount ≤ c.threshold)
-  chanSet i { c with buffered := c.buffered + amount }
-  if crosses && !c.silent && c.ready ≠ 3 then emit (.evLow i)
+  if (← addBufferedCore i amount) then react 2 i
 
 /-! ## sending chunks -/
 
@@ -162,10 +211,6 @@ def playTx (evs : List TxEv) : M Unit := do
     | .fwd cum streams => sendChunk (.forwardTsn 0 cum.toNat (streams.map fun s => (s.1, s.2.toNat)))
     | .t3start => emit (.timerStart "t3")
     | .t3cancel => emit (.timerCancel "t3")
-
-def queueTask (t : Task) (name : String) : M Unit := do
-  modE fun e => { e with tasks := e.tasks ++ [t] }
-  emit (.task name)
 
 /-- `_transmit()`. -/
 def transmit : M Unit := do
@@ -242,7 +287,8 @@ def transmitReconfig : M Unit := do
       rcStart
 
 /-- `_data_channel_flush()`: the `while self._data_channel_queue and not self._outbound_queue` loop
-(each iteration pops one queue entry, so `len(queue) + 1` iterations of fuel are never exhausted). -/
+(each iteration pops one queue entry and only a one-shot application handler can add one, so
+`len(queue) + len(reactions) + 1` iterations of fuel are never exhausted). -/
 def flushLoop : Nat → M Unit
   | 0 => pure ()
   | fuel + 1 => do
@@ -291,7 +337,8 @@ def flush : M Unit := do
   let e ← getE
   if e.assoc ≠ .established then pure ()
   else
-    flushLoop (e.dcQueue.length + 1)
+    -- an application handler running inside the loop (`bufferedamountlow`) can append one more entry per armed reaction
+    flushLoop (e.dcQueue.length + e.reactions.length + 1)
     -- stream resets which were waiting for queued data can go out now
     if !(← getE).reconfigQueue.isEmpty then transmitReconfig
 
@@ -387,9 +434,12 @@ def dcReceive (sid ppid : Nat) (data : Bytes) : M Unit := do
       flush
       -- without transport listeners (association closed) nobody ever learns about this channel
       if (← getE).listeners then
-        emit (.evChannel i)
+        -- the application's `datachannel` handler: it attaches its handlers to the channel (`silent := false`), the
+        -- event is recorded, then an armed reaction sends on the new channel
         let c ← chanGet i
         chanSet i { c with silent := false }
+        emit (.evChannel i)
+        react 4 i
     else if msgType = DATA_CHANNEL_ACK then
       match dictGet e.dataChannels sid with
       | none => pure ()
@@ -402,15 +452,16 @@ def dcReceive (sid ppid : Nat) (data : Bytes) : M Unit := do
     | some i =>
       let c ← chanGet i
       let live := !c.silent && c.ready ≠ 3
+      let fire (isStr : Bool) (d : Bytes) : M Unit := do
+        if live then
+          emit (.evMessage i isStr d)
+          react 3 i
       if ppid = WEBRTC_STRING then
         if !utf8Valid data then return
-        if live then emit (.evMessage i true data)
-      else if ppid = WEBRTC_STRING_EMPTY then
-        if live then emit (.evMessage i true [])
-      else if ppid = WEBRTC_BINARY then
-        if live then emit (.evMessage i false data)
-      else if ppid = WEBRTC_BINARY_EMPTY then
-        if live then emit (.evMessage i false [])
+        fire true data
+      else if ppid = WEBRTC_STRING_EMPTY then fire true []
+      else if ppid = WEBRTC_BINARY then fire false data
+      else if ppid = WEBRTC_BINARY_EMPTY then fire false []
 
 /-! ## receive path -/
 
@@ -696,6 +747,8 @@ inductive Input where
   | send (ch : Nat) (isStr : Bool) (data : Bytes)
   | close (ch : Nat)
   | threshold (ch : Nat) (v : Int)
+  /-- the application registers a one-shot handler for event `kind` of channel `ch` that calls `send(data)` -/
+  | react (kind ch : Nat) (isStr : Bool) (data : Bytes)
   deriving Repr, Inhabited
 
 def encodeOpen (c : Chan) : Outcome Bytes :=
@@ -818,18 +871,14 @@ def handle : Input → M Unit
   | .send i isStr data => do
     let c ← chanGet i
     if c.ready ≠ 1 then emit (.exc "InvalidStateError"); return
-    let (ppid, ud) :=
-      if data.isEmpty then (if isStr then WEBRTC_STRING_EMPTY else WEBRTC_BINARY_EMPTY, [0])
-      else (if isStr then WEBRTC_STRING else WEBRTC_BINARY, data)
-    addBuffered i ud.length
-    modE fun e => { e with dcQueue := e.dcQueue ++ [(i, ppid, ud)] }
-    queueTask .flush "data_channel_flush"
+    dcSend i isStr data
   | .close i => dcClose i
   | .threshold i v => do
     if v < 0 || v > 4294967295 then emit (.exc "ValueError")
     else
       let c ← chanGet i
       chanSet i { c with threshold := v.toNat }
+  | .react k i isStr data => modE fun e => { e with reactions := e.reactions ++ [(k, i, isStr, data)] }
 
 /-- One atomic step at clock value `now`. After a crash the state is the one reached when the exception was raised. -/
 def step (e : Ep) (now : Int) (inp : Input) : Ep × List Out :=
